@@ -427,10 +427,24 @@ def _check_detailed(F, R, f, model):
                         "the fallback (catch) branch computes %s but the normal branch %s" % (show(st[2])[:110], show(st[3])[:110]),
                         key="D4|%s|fallback|%s" % (model, show(b)[:40]))
 
+    guard_issues = []
+
     def rat(frame, node):
         t = frame.fz(frame.e(node))
         # try/catch merges: both branches assign the same expression shape; unknowns are reported
-        return to_rat(_strip_ite(t)), t
+        t1 = _strip_ite(t)
+        # a division guard `ref != 0 ? 100 x / ref : 0`: accepted only if it is blind to the sign of the reference
+        for u in subterms(t1):
+            if isinstance(u, tuple) and len(u) == 4 and u[0] == "ite" and u[1][0] != "caught":
+                c = u[1]
+                sym_ok = (c[0] == "cmp" and c[1] == "!=") or \
+                    (c[0] == "cmp" and c[1] in ("<", "<=") and any(isinstance(w, tuple) and w[:2] == ("call", "abs") for w in (c[2], c[3]))) or \
+                    (c[0] == "not" and c[1][0] == "call" and str(c[1][1]).split("::")[-1] == "is_zero") or \
+                    (c[0] == "call" and str(c[1]).split("::")[-1] in ("isfinite",))
+                if not sym_ok:
+                    guard_issues.append((node, "the printed value is guarded by `%s`, which is not symmetric in the sign of the tested "
+                                               "quantity: for the other sign `%s` is printed instead" % (show(c)[:80], show(u[3])[:30])))
+        return to_rat(_strip_guards(t1)), t
 
     # split into lines
     lines = [[]]
@@ -509,6 +523,12 @@ def _check_detailed(F, R, f, model):
             R.check("D4", bool(grp) and s.equals(tot), inst + ": sum = " + show(st)[:60], where,
                     "printed sum %s is not the sum of the %d printed parts of its group" % (show(st)[:100], len(grp)),
                     key="D4|%s|%s|sum" % (model, _heading(lines, li)[:30]))
+    seen_gi = set()
+    for node_, msg_ in guard_issues:
+        if msg_ in seen_gi:
+            continue
+        seen_gi.add(msg_)
+        R.fail("D4", "Detailed<%s>: guarded value" % model, F.loc(f, node_), msg_, key="D4|%s|guard|%s" % (model, msg_[:60]))
     if n_pct < 2 or n_sum < 1:
         R.broken("D4: detailed writer for %s: only %d percentages / %d sums recognised" % (model, n_pct, n_sum))
 
@@ -544,11 +564,24 @@ def _norm_obj(t):
     return tuple(_norm_obj(x) if isinstance(x, tuple) else x for x in t)
 
 
+def _strip_guards(t):
+    """`cond ? value : fallback` division guards: the algebra of the line is that of `value` (the guard itself is judged in rat())"""
+    if t[0] == "ite":
+        return _strip_guards(t[2])
+    if t[0] in ("+", "-", "*", "/"):
+        return (t[0], _strip_guards(t[1]), _strip_guards(t[2]))
+    if t[0] == "neg":
+        return ("neg", _strip_guards(t[1]))
+    return t
+
+
 def _strip_ite(t):
     """values assigned in both arms of the try/catch fallback are the same expression on different
     model copies; for the algebra of the output line the first alternative is used"""
+    if t[0] == "ite" and t[1][0] == "caught":
+        return _strip_ite(t[3])
     if t[0] == "ite":
-        return _strip_ite(t[3] if t[1][0] == "caught" else t[2])
+        return ("ite", t[1], _strip_ite(t[2]), _strip_ite(t[3]))
     if t[0] in ("+", "-", "*", "/"):
         return (t[0], _strip_ite(t[1]), _strip_ite(t[2]))
     if t[0] == "neg":
